@@ -151,7 +151,7 @@ func traceOne(id int, src string, mode Mode, prog *vm.Program, e *Env, asg EnvAs
 }
 
 // runRecord: cases in, traces out.  -every k records every k-th case only.
-func runRecord(args []string) int {
+func runRecord(args []string) (code int) {
 	in, out, sumPath, modesArg := "", "", "", "struct:noopt"
 	every, maxRuns := 1, 1000000
 	wfOnly := false
@@ -206,6 +206,21 @@ func runRecord(args []string) int {
 	sc.Buffer(make([]byte, 1<<20), 1<<28)
 	lg := &Log{}
 	n, runs, skipped, dead, events := 0, 0, 0, 0, 0
+	defer func() {
+		// a traced run outlived the watchdog (its trace, ending in "PANIC", is in the output): nothing more can be
+		// executed in this process; what was recorded so far is validated
+		if p := recover(); p != nil {
+			if _, ok := p.(restartSentinel); !ok {
+				panic(p)
+			}
+			w.Flush()
+			sf, _ := os.Create(sumPath)
+			json.NewEncoder(sf).Encode(map[string]int{"cases": n, "runs": runs, "skipped_outside_universe": skipped, "dead_hook_runs": 0,
+				"events": events, "stopped_after_hang": 1})
+			sf.Close()
+			code = 0
+		}
+	}()
 	for sc.Scan() {
 		n++
 		if n%every != 0 || runs >= maxRuns {
